@@ -121,6 +121,9 @@ def structured(b, r):
     for d in (1, 2, 5):          # ... and inside the footer (the closing newline, the last characters of the rule)
         if len(b) > d:
             yield "trunc@last-%d" % d, b[:len(b) - d]
+    # ... and data appended after a complete file (allowed: readers ignore what follows the footer)
+    for tail in (b"\n", b"X", b"\x00", b"\nTZif2" + b"\x00" * 40, bytes(range(256))):
+        yield "append+%d" % len(tail), b + tail
     # 8. footer
     if not L["v1"]:
         body = b[:L["end"]]
